@@ -451,7 +451,7 @@ func init() {
 		rule:   "pgen programs run under the real mrp with the probe stage; a case = (program, schedule); non-trivial = program has a map call, disabled binding, projection or split stage; distinct = (program shape hash, job start/end order signature). Oracle: every recorded stage execution's args (and join's chunk_defs/chunk_outs, top-level _outs) must equal the reference evaluation of the bindings over the outputs the producers actually recorded.",
 		assume: []string{"reference evaluator internal/pgen/model.go is the trusted base for what bindings denote", "probe stage outputs conform to the declared output types"},
 		cases: func(c *vf.Ctx) []*flowCase {
-			n := c.Pick(48, 1500)
+			n := c.Pick(99, 1500)
 			var cases []*flowCase
 			for i := 0; i < n; i++ {
 				cfg := pgen.DefaultConfig()
@@ -473,7 +473,7 @@ func init() {
 		rule:   "pgen programs biased to dependency shapes (consumption through sub-pipeline inputs/returns, disabled conditions, map sources from run-time sized outputs), producers slowed by probe delays, scheduler perturbed by hook delays at refresh/step/expandForks/jobDone; a case = (program, schedule); distinct = (shape hash, job start/end order signature); non-trivial = at least one cross-call dependency edge checked. Oracle: interval order between the probes' own monotonic start/end events for every model-derived dependency (data, disabled, map source, preflight) and split<chunks<join within a fork.",
 		assume: []string{"dependency sets come from the reference evaluator's dataflow analysis (only dependencies implied by the bindings are required; the runtime may be stricter)", "CLOCK_MONOTONIC is comparable across processes on this host"},
 		cases: func(c *vf.Ctx) []*flowCase {
-			n := c.Pick(48, 1200)
+			n := c.Pick(72, 1200)
 			var cases []*flowCase
 			hook := []string{"", "refresh:*=40@0.5;node:step=15@0.3;expand:fork=60@0.8;local:notify=80@0.5",
 				"loop:*=50@0.5;step:begin=60@0.5;fork:*=20@0.3", "meta:write:*=8@0.3;runjob:*=30@0.5"}
@@ -501,7 +501,7 @@ func init() {
 		rule:   "pgen programs with emphasis on collection sizes (0,1,2,3 and 10/11 crossing the decimal width), typed-map key sets, nested map calls, zero-chunk splits, calls disabled by own condition / enclosing pipeline / empty or null map source; hook delays between journal processing and StepNodes and inside expandForks. Oracle: the multiset of executed (call, fork, phase, chunk) equals the reference model's expected set: each expected invocation is matched by exactly one recorded fork, each job started exactly once, chunk jobs == chunks the split defined, no job of a disabled call. distinct = (shape hash, schedule signature); non-trivial = program has a map call, disabled call or split stage.",
 		assume: []string{"failure-free runs only (a failed run is inconclusive)", "stages fork only along the map dimensions their bindings (transitively) depend on, as the fork-root design states"},
 		cases: func(c *vf.Ctx) []*flowCase {
-			n := c.Pick(48, 1200)
+			n := c.Pick(99, 1200)
 			var cases []*flowCase
 			hook := []string{"", "refresh:file=20@0.5;step:begin=40@0.5;expand:fork=50@0.9", "node:step=10@0.5;local:notify=50@0.5"}
 			for i := 0; i < n; i++ {
@@ -530,7 +530,7 @@ func init() {
 		rule:   "file-passing pgen programs (files directly, in structs/arrays/typed maps, through sub-pipelines, several consumers, across mapped calls with run-time fork counts) under --vdrmode=rolling|post|strict with volatile / volatile=strict|false / retain annotations; consumers delayed so they start long after producers completed; hook delays at the VDR goroutines and removals. Oracle: every consumer probe lstat+reads every path in its own arguments at start (missing or wrong content token of a file its producer wrote = violation); at completion every top-level file output resolves to the producer's content token and every retained file still exists. distinct = (shape hash, vdr mode, schedule signature); non-trivial = at least one consumer file check or top-level file leaf.",
 		assume: []string{"the probe honours the contract: file outputs name files it wrote itself under its own files directory"},
 		cases: func(c *vf.Ctx) []*flowCase {
-			n := c.Pick(60, 1500)
+			n := c.Pick(120, 1500)
 			var cases []*flowCase
 			modes := []string{"rolling", "post", "strict"}
 			hook := []string{"", "vdr:*=60@0.7;fork:doComplete*=30@0.5", "vdr:remove*=40@0.9;node:step=10@0.3", "vdr:partial:begin=120@0.8"}
@@ -597,7 +597,7 @@ func init() {
 		rule:   "pgen programs whose top-level pipeline returns files in every container nesting (file, user file types, path incl. directories, arrays / typed maps / structs of files, explicit out names, nulls, files named but never written, the same file returned twice); oracle re-derives the outs/ path of every file leaf from parameter name, type and outname and checks (a) that path resolves to the producer's content token, (b) the post-processed _outs is valid JSON of the same shape, file values name a materialised location with that content, every other value unchanged, never-written files became null. distinct = (shape hash, top-level output signature); non-trivial = at least one file leaf checked.",
 		assume: []string{"content tokens written by the probe identify the producing job's file", "expected values come from the reference evaluator over recorded stage outputs"},
 		cases: func(c *vf.Ctx) []*flowCase {
-			n := c.Pick(60, 2000)
+			n := c.Pick(120, 2000)
 			var cases []*flowCase
 			for i := 0; i < n; i++ {
 				cfg := pgen.DefaultConfig()
@@ -634,7 +634,7 @@ func init() {
 		rule:   "C04's file-passing programs with extra unreferenced files, nested directories and TMPDIR files written by every job, under rolling/post/strict VDR with volatile / volatile=strict|false / retain; oracle at completion: no job tmp directory, no chunk-level file of a splitting stage, no file of a volatile (strict mode: any) stage that no top-level output or retain names; every path listed in any _vdrkill* gone; fork and pipestance report count/size == sum of the hook's own lstat inventories taken just before each removal; every vanished file covered by an inventoried removal; every removal inside the pipestance; canary beside it untouched. distinct = (shape hash, mode, schedule); non-trivial = at least one removal observed.",
 		assume: []string{"report unit: filesystem entries created by jobs (runtime-made tmp/files directory inodes not counted), st_size bytes", "the verif hook inventory (util.VerifPoint vdr:remove*) walks the subtree immediately before os.RemoveAll"},
 		cases: func(c *vf.Ctx) []*flowCase {
-			n := c.Pick(60, 1500)
+			n := c.Pick(120, 1500)
 			var cases []*flowCase
 			modes := []string{"rolling", "post", "strict"}
 			hook := []string{"", "vdr:*=40@0.5", "vdr:remove*=30@0.8;fork:doComplete*=20@0.5"}
